@@ -12,17 +12,94 @@ PROFILES = [
          subsume=0.3, pushpop=0.3),
     dict(fns=["max"], nrules=3, nsets=1, rels=1, ncmds=12, checks=0.4, sched_depth=1, depth=2, growth=True, sizes=0.3, extract=0.2, variants=[0],
          late_rules=0.3),
+    # a constructor with an e-class column next to a base column, subsumed tuples whose children are unioned later
+    dict(fns=[], consts=3, unary=1, binary=0, mixcon=1, maxint=2, nrules=4, nsets=1, rels=1, ncmds=14, checks=0.5, sched_depth=1, depth=2, growth=False,
+         sizes=0.3, subsume=0.7, templ=0.3),
+    # functions and relations keyed by containers of e-classes
+    dict(fns=[], consts=3, unary=1, binary=0, conts=["vec"], nrules=3, nsets=1, rels=1, ncmds=14, checks=0.5, sched_depth=1, depth=2, growth=False,
+         sizes=0.3, cont_n=[1, 2, 2]),
 ]
+
+
+def scenarios(tier):
+    """directed histories for the encoding's rebuild rules: (a) a tuple of a constructor with an e-class column next to a
+    base column is subsumed, then its e-class child is unioned into an OLDER class, then a rule over that constructor runs;
+    (b) a function keyed by a container of e-classes gets a row, an element is unioned into an older class, and the
+    function is queried with the canonical container.  Class ages, values, noise commands are randomised."""
+    import random
+    from . import core, sessgen
+    from .sessgen import Prog, flatten
+    r = random.Random(core.seed() * 13 + 5)
+    out = []
+    n = 10 if tier == "quick" else 300
+    V = lambda k: {"v": k}
+    for k in range(n):
+        p = Prog()
+        A = p.add("A", "con", [], "E"); B = p.add("B", "con", [], "E"); C = p.add("C", "con", [], "E")
+        F = p.add("F", "con", ["E"], "E")
+        t = lambda f, *a: {"f": f, "a": list(a)}
+        cmds = []
+        p.rsets.append(dict(name="rs0", kind="rules", subs=[]))
+        old, young = (A, B) if r.random() < 0.7 else (B, A)
+        if k % 2 == 0:
+            Q = p.add("Q", "con", ["i64", "E"], "E")
+            M = p.add("M", "con", ["E"], "RelM", rel=True)
+            p.rules.append(dict(rs="rs0", name="seeq", body=[dict(k="tab", f=Q, a=[V(1), V(2)], o=V(3))], head=[dict(k="ins", t={"f": M, "a": [V(2)]})]))
+            nval = r.randrange(3)
+            cmds.append(dict(k="ins", t=t(old)))
+            if r.random() < 0.5:
+                cmds.append(dict(k="ins", t=t(F, t(C))))
+            cmds.append(dict(k="ins", t={"f": Q, "a": [{"i": nval}, t(young)]}))
+            if r.random() < 0.4:
+                cmds.append(dict(k="run", s=dict(k="run", rs="rs0", until=[])))
+            cmds.append(dict(k="subsume", f=Q, a=[{"i": nval}, t(young)]))
+            cmds.append(dict(k="union", a=t(young), b=t(old)))
+            if r.random() < 0.5:
+                cmds.append(dict(k="ins", t={"f": Q, "a": [{"i": nval + 1}, t(C)]}))
+            cmds.append(dict(k="run", s=dict(k="run", rs="rs0", until=[])))
+            for x in (old, young, C):
+                cmds.append(sessgen.check_present(p, {"f": M, "a": [t(x)]}))
+            cmds.append(dict(k="size", f=M))
+            cmds.append(dict(k="size", f=Q))
+        else:
+            p.csorts.append(dict(name="VecE", kind=1, elems=["E"]))
+            fc = p.add("fc", "fn", ["VecE"], "i64", merge=r.choice(["max", "min"]))
+            Rc = p.add("Rc", "con", ["VecE"], "RelC", rel=True)
+            vec = lambda *xs: {"c": "VecE", "a": list(xs)}
+            val = r.randrange(1, 4)
+            cmds.append(dict(k="ins", t=t(old)))
+            shape = r.choice([(young, young), (young, C), (C, young)])
+            cmds.append(dict(k="set", f=fc, a=[vec(*[t(x) for x in shape])], v={"i": val}))
+            cmds.append(dict(k="ins", t={"f": Rc, "a": [vec(*[t(x) for x in shape])]}))
+            if r.random() < 0.5:
+                cmds.append(dict(k="ins", t=t(F, t(young))))
+            cmds.append(dict(k="union", a=t(young), b=t(old)))
+            canon = [old if x == young else x for x in shape]
+            for sh in (canon, list(shape)):
+                atoms, nv = [], [0]
+                v = flatten(p, {"f": fc, "a": [vec(*[t(x) for x in sh])]}, atoms, nv)
+                atoms.append(dict(k="cmp", op="eq", l=v, r={"i": val}))
+                cmds.append(dict(k="check", facts=atoms, text="(= (fc %s) %d)" % (sessgen.gterm_text(p, vec(*[t(x) for x in sh])), val)))
+                cmds.append(sessgen.check_present(p, {"f": Rc, "a": [vec(*[t(x) for x in sh])]}))
+            cmds.append(dict(k="size", f=fc))
+            cmds.append(dict(k="size", f=Rc))
+        steps = [dict(c={k2: v2 for k2, v2 in c.items() if k2 != "text"}, text=sessgen.cmd_text(p, c)) for c in cmds]
+        out.append(dict(id="c11s-%d" % k, mode=dict(PLAIN), prog=p.struct(), active=list(range(1, len(p.rules) + 1)),
+                        setup=sessgen.decl_text(p) + [sessgen.rule_text(p, x) for x in p.rules], steps=steps,
+                        tables=[fn["name"] for fn in p.funcs]))
+    return out
 
 
 def check(tier):
     return family.check_groups(
         "C11", tier,
-        [dict(fam="c11", model_specs=[], profiles=PROFILES, configs=[(PLAIN, None), (TERM, None), (PROOF, None), (REPARSE, None)], nrand=(10, 250))],
+        [dict(fam="c11", model_specs=[], profiles=PROFILES, configs=[(PLAIN, None), (TERM, None), (PROOF, None), (REPARSE, None)], nrand=(8, 250)),
+         dict(fam="c11s", model_specs=[], profiles=[], configs=[(PLAIN, None), (TERM, None), (PROOF, None), (REPARSE, None)], nrand=(0, 0), extra=scenarios)],
         ["every session is run in four treatments: plain, term encoding, proofs, and `resolve_program` on a term-encoding engine whose printed output is "
          "parsed and run by a plain engine (reserved names allowed); all four traces must be accepted by the same deterministic specification, which fixes "
          "the outcome (ok / error) of every command, every check, every print-size and every extraction cost; in the three encoded treatments the "
          "engine's own tables (views, union-find tables) are not compared row by row",
          "sessions stay in the fragment program_supports_proofs accepts: constructors, relations, functions with min/max merge, rules with "
-         "insert/union/set heads, subsume, push/pop, schedules; no containers, no delete, no function lookups in actions"],
+         "insert/union/set heads, subsume, push/pop, schedules, constructors mixing e-class and base columns, Vec containers of e-classes as keys; "
+         "no delete, no function lookups in actions"],
         chunks=10)
